@@ -169,6 +169,14 @@ impl ForwardedModule {
             map = Arc::new(PrefixedMapView(map, prefix.to_owned()));
         }
 
+        if let Some(safelist) = safelist {
+            map = Arc::new(LimitedMapView::safelist(map, safelist));
+        } else if let Some(blocklist) = blocklist {
+            if !blocklist.is_empty() {
+                map = Arc::new(LimitedMapView::blocklist(map, blocklist));
+            }
+        }
+
         map
     }
 
